@@ -695,6 +695,8 @@ pub struct StreamCase {
 }
 
 pub struct StreamSpace {
+    /// seconds the search of one image may take before it is stopped and reported as capped
+    pub budget_secs: u64,
     pub which: Which,
     pub cases: Vec<StreamCase>,
     pub threads: usize,
@@ -784,9 +786,18 @@ impl Space for StreamSpace {
             // before evaluating them: init(1) -> open(2) -> d ops (d+2) must all be evaluated
             b = b.target_max_depth(d + 3);
         }
+        // budget inside the engine: a changed implementation can enlarge the state space without
+        // bound (an extra field in the stream's Debug text); hitting the budget is reported as a cap
+        // (the run is then not exhaustive), never as a verdict. Unchanged tree: < 60 s per image.
+        let budget = std::time::Duration::from_secs(if c.label.contains("fixpoint") || c.max_depth.map(|d| d >= 3).unwrap_or(true) { self.budget_secs } else { self.budget_secs / 2 });
+        b = b.timeout(budget);
         let t0 = std::time::Instant::now();
         let chk = b.spawn_bfs().join();
         let m = chk.model();
+        if t0.elapsed() >= budget && chk.discovery("holds").is_none() {
+            out.extra.insert(format!("capped_{}_{}", c.label, c.enc.name()), json!(format!("search stopped at the {} s engine budget after {} unique states", budget.as_secs(), chk.unique_state_count())));
+            out.count("engine_budget_hit");
+        }
         out.extra.insert(format!("secs_{}_{}", c.label, c.enc.name()), json!((t0.elapsed().as_secs_f64() * 10.0).round() / 10.0));
         out.extra.insert(format!("states_{}_{}", c.label, c.enc.name()), json!(chk.unique_state_count()));
         out.states += chk.unique_state_count() as u64;
